@@ -9,6 +9,8 @@ import PyamgV.Proofs.ExtC04Steps
 import PyamgV.Proofs.ExtSpmmMat
 import PyamgV.Proofs.ExtC04XCheck
 import PyamgV.Proofs.ExtC04XSparse
+import PyamgV.Proofs.ExtC04YAir
+import PyamgV.Proofs.ExtSpmmHier
 
 /-! # C04 — hierarchy structure: Galerkin coarse operators and coarsening limits
 
@@ -168,6 +170,49 @@ restate filtered_galerkin_clause := PyamgV.C04X.pairOKF_filtered_def
 /-- zero tolerance and no skipped decision: the matrix IS the filtered one, entry by entry -/
 restate filtered_exact := PyamgV.C04X.filtOK_exact
 
+/-! ### THE COMPOSITION (extension E54): `Model/ExtC04YLoop.lean` puts the three models together -- the loop `Coarsen.build`
+with the step guards of E13 (`ExtC04.step`), the sparse Galerkin product of E27 (`Spmm.galerkin`), and for
+`air_solver(filter_operator=(lump, theta))` the row filter on the STORED rows (`C04Y.filterCsr` = the C19 kernel model +
+`eliminate_zeros()`).  The numerical part of a step is a parameter `num`: ANY function from the level descriptor and the
+matrix the step works with to the numbers the guard reads and a pair `P`, `R`; `NumOK sym num` asks only that, when the
+guard lets the step proceed to `r` rows, `P` is a well-formed `n x r` and `R` a well-formed `r x n` matrix, `r > 0`, and `R`
+relates to `P` as `sym` says.  `C04Y.hier` / `hierF` read `A_l, P_l, R_l` off the final state in the form the checkers take.
+The driver runs the very loop (`c04y_build`) on the guard numbers, `P`, `R` observed on every real step: it must stop where
+the real loop stopped, the proved checker must accept the model's hierarchy, and the model's level matrices must be the real
+ones up to the accumulated rounding bound. -/
+/-- for EVERY step function with well-formed `P`, `R`, all limits, any fuel, any well-formed square non-empty input in any
+stored form: the hierarchy the loop builds satisfies `HierOK` with tolerance 0 (shapes chain, every level square and
+non-empty, rows strictly decrease, `A_{l+1} = R_l A_l P_l` exactly, `R = Pᵀ / Pᴴ` when promised) -/
+restate loop_builds_hierarchy_sparse := PyamgV.C04Y.loop_hierOK
+/-- AIR with filtering: the hierarchy satisfies `HierOKF` with tolerance 0, nothing skipped: level 0 is worked on through
+`filter(A0)`, `A_1 = R_0 filter(A0) P_0`, every coarse level a step was attempted on is stored as `filter(R A P)`, an
+untouched last level as `R A P`; input without duplicate stored entries -/
+restate air_loop_builds_filtered_hierarchy := PyamgV.C04Y.loop_hierOKF
+/-- so the Boolean checkers the driver applies to the model's output answer `true` -/
+restate loop_checker_accepts := PyamgV.C04Y.loop_check
+restate air_loop_checker_accepts := PyamgV.C04Y.loop_checkF
+/-- the limits clause for the same run: at most `max_levels` levels, every coarsened level larger than `max_coarse`,
+stopped because of `max_levels`, `max_coarse` or a stall -/
+restate loop_limits_sparse := PyamgV.C04Y.loop_limits
+/-- the finest level of the run is the user's matrix -/
+restate loop_finest_sparse := PyamgV.C04Y.loop_finest
+/-- every appended level was licensed by the guard model of E13, has the next index and strictly fewer rows -/
+restate loop_steps_guarded := PyamgV.C04Y.loop_guarded
+/-- the loop invariant behind both theorems, for any `work` (identity / filter) -/
+restate loop_invariant_sparse := PyamgV.C04Y.build_inv
+/-- a linked pair of levels satisfies the pair clause of the specification exactly -/
+restate linked_pair_galerkin := PyamgV.C04Y.pairOK_of_link
+/-- the filter on the stored CSR rows (the real kernel + `eliminate_zeros`) and the filter on the dense matrix (the checker)
+agree entry by entry when no row lists a column twice -/
+restate stored_filter_meaning := PyamgV.C04Y.filterCsr_meaning
+/-- ... and the rows of a sparse product never do (`csr_matmat` emits every touched column once) -/
+restate product_rows_no_duplicates := PyamgV.C04Y.mul_nodupRows
+/-- the filter keeps well-formedness and the stored columns -/
+restate stored_filter_well_formed := PyamgV.C04Y.filterCsr_wf
+/-- `NumOK` discharged for steps that compute `R = P.T.tocsr()` / `R = P.T.conjugate()`: a hypothesis on `P` only -/
+restate step_hypothesis_transpose := PyamgV.C04Y.numOK_of_transpose
+restate step_hypothesis_conj_transpose := PyamgV.C04Y.numOK_of_conjT
+
 /-! non-vacuity -/
 section spmm_examples
 open PyamgV.Spmm
@@ -241,6 +286,43 @@ example : (List.range 3).map (PyamgV.C19.entry (PyamgV.C19.filterRowDiag CRat.no
 -- the fast checker on the two-level example
 example : checkHierS .symm 0 [⟨exA, exP, exR⟩, ⟨⟨1, 1, #[⟨2, 0⟩]⟩, exE, exE⟩] = true := by decide +kernel
 end e50_examples
+
+-- extension E54: non-vacuity.  `numPair` = aggregation of consecutive unknowns, `R = P.T.tocsr()`: it satisfies `NumOK`, and the
+-- loop on `tridiag(-1, 2, -1)` of size 4 (stored with a split entry) builds 4 -> 2 -> 1 rows, accepted by the checker
+section e54_examples
+open PyamgV.C04Y PyamgV.Spmm PyamgV.ExtC04 PyamgV.C04X
+def numPair (_ : Lv) (A : Csr CRat) : NumOut := ⟨.pw A.rows ((A.rows + 1) / 2), pairP A.rows, transpose (pairP A.rows)⟩
+example : NumOK .symm numPair := by
+  apply numOK_of_transpose numPair (fun _ _ => rfl)
+  intro l A r b _ _ _ hs
+  have h := stepPW_proceed l _ _ r b hs
+  refine ⟨pairP_wf _, rfl, h.2.2.1.symm, ?_⟩
+  have h1 : r = (A.rows + 1) / 2 := h.2.2.1
+  have h2 : A.rows = l.rows := h.2.1
+  have h3 := h.2.2.2.2
+  omega
+def lap4 : Csr CRat := ⟨4, 4, #[0, 3, 6, 9, 11], #[0, 1, 0, 0, 1, 2, 1, 2, 3, 2, 3],
+  #[⟨1,0⟩, ⟨-1,0⟩, ⟨1,0⟩, ⟨-1,0⟩, ⟨2,0⟩, ⟨-1,0⟩, ⟨-1,0⟩, ⟨2,0⟩, ⟨-1,0⟩, ⟨-1,0⟩, ⟨2,0⟩]⟩
+example : lap4.wf = true := by decide
+example : (buildG id numPair true 10 0 10 lap4 1).map (·.lv.rows) = [1, 2, 4]
+    ∧ checkHierS .symm 0 (hier (buildG id numPair true 10 0 10 lap4 1)) = true
+    ∧ ((hier (buildG id numPair true 10 0 10 lap4 1)).map (·.A.data)).drop 1 = [#[⟨2,0⟩, ⟨-1,0⟩, ⟨-1,0⟩, ⟨2,0⟩], #[⟨2,0⟩]] := by
+  decide +kernel
+-- max_coarse = 2 stops the same run after two levels
+example : (buildG id numPair true 10 2 10 lap4 1).map (·.lv.rows) = [2, 4] := by decide +kernel
+-- AIR-type filtering, theta = 3/4 without lumping, on `[[4,-1,0,0],[-1,4,-2,0],[0,-2,4,-1],[0,0,-1,4]]` (no duplicates): the
+-- couplings -1 and -2 fall below 3/4 * 4 and are dropped on level 0, the coarse level `diag(8, 8)` was not touched (flag 0)
+def air4 : Csr CRat := ⟨4, 4, #[0, 2, 5, 8, 10], #[0, 1, 0, 1, 2, 1, 2, 3, 2, 3],
+  #[⟨4,0⟩, ⟨-1,0⟩, ⟨-1,0⟩, ⟨4,0⟩, ⟨-2,0⟩, ⟨-2,0⟩, ⟨4,0⟩, ⟨-1,0⟩, ⟨-1,0⟩, ⟨4,0⟩]⟩
+example : (filterCsr (3/4) false air4).aj = #[0, 1, 2, 3] := by decide +kernel
+example : checkHierF ⟨3/4, false, 0⟩ .symm 0 (toMat air4)
+      (hierF (filterCsr (3/4) false) false 2 0 (buildG (filterCsr (3/4) false) numPair false 2 0 2 air4 1)) = true
+    ∧ (hierF (filterCsr (3/4) false) false 2 0 (buildG (filterCsr (3/4) false) numPair false 2 0 2 air4 1)).map (·.2) = [false, false]
+    ∧ (hierF (filterCsr (3/4) false) false 2 0 (buildG (filterCsr (3/4) false) numPair false 2 0 2 air4 1)).map (·.1.A.data)
+        = [#[⟨4,0⟩, ⟨0,0⟩, ⟨0,0⟩, ⟨0,0⟩, ⟨0,0⟩, ⟨4,0⟩, ⟨0,0⟩, ⟨0,0⟩, ⟨0,0⟩, ⟨0,0⟩, ⟨4,0⟩, ⟨0,0⟩, ⟨0,0⟩, ⟨0,0⟩, ⟨0,0⟩, ⟨4,0⟩],
+           #[⟨8,0⟩, ⟨0,0⟩, ⟨0,0⟩, ⟨8,0⟩]] := by
+  decide +kernel
+end e54_examples
 
 /-! ## E31 -- the option handling, translated from the source (`harness/py2lean.py`)
 
